@@ -1405,7 +1405,8 @@ Hwrite(int32 access_id, int32 length, const void *data)
        Does this mean every element is by default appendable? */
     HIrefresh_new(access_rec);
     if (access_rec->new_elem == TRUE) {
-        Hsetlength(access_id, length); /* make the initial chunk of data */
+        if (Hsetlength(access_id, length) == FAIL) /* make the initial chunk of data */
+            HGOTO_ERROR(DFE_INTERNAL, FAIL);
         access_rec->appendable = TRUE; /* make it appendable */
     }                                  /* end if */
 
